@@ -191,7 +191,15 @@ LedUpd(led, o, ret, T) ==
               [] OTHER -> led
   IN l2 \cap KnownIds(T)
 
-PropFrame(K, S, led, o, T) ==
+\* stored peers as the caller can know them: <<bucket, id, connection, has-address>>
+KnownEnt(bk) == UNION {{<<i, bk[i][j].id, bk[i][j].conn, bk[i][j].ha>> :
+                          j \in {n \in 1..Len(bk[i]) : bk[i][n].u = 1}} : i \in DOMAIN bk}
+
+\* the calls that store a peer (add_known_peer without addresses is documented to be ignored,
+\* `insert` only acts on a Vacant entry); every other call is a lookup / status update
+Inserting(o, ret) == (o.op = "add" /\ o.ha = 1) \/ (o.op = "insert" /\ ret = "vacant")
+
+PropFrame(K, S, led, o, ret, T) ==
   LET kS == KnownIds(S)
       kT == KnownIds(T)
       \* connected = reported connected by the caller, or held as Connected by the table
@@ -202,9 +210,18 @@ PropFrame(K, S, led, o, T) ==
      /\ (connected \ own) \subseteq kT
      \* nothing is stored that nobody supplied
      /\ kT \subseteq kS \cup own
+     /\ IF Inserting(o, ret)
+          \* peers are displaced only "to make room": from the full bucket the new peer goes to
+          THEN \A e \in Stored(S) : (e.u = 1 /\ e.id \notin kT /\ e.id \notin own) =>
+                  (e.xb = o.xb /\ o.xb \in DOMAIN S /\ Len(S[o.xb]) = K)
+          \* a call that does not store a peer (dial failure, connection established,
+          \* disconnect, lookup, closest - for a stored or an absent key) stores and loses
+          \* nobody and leaves every other stored entry as it was
+          ELSE /\ {e \in KnownEnt(T) : e[2] \notin own} = {e \in KnownEnt(S) : e[2] \notin own}
+               /\ (own \cap kT) \subseteq kS
 
 PropStep(K, S, led, o, ret, T) ==
-  /\ PropFrame(K, S, led, o, T)
+  /\ PropFrame(K, S, led, o, ret, T)
   /\ o.op = "closest" => ClosestOK(S, o, ret)
 
 \* Shape of the recorded defect D11 (ClosestBucketsIter yields bucket 0 twice): the peer
